@@ -21,7 +21,7 @@ ASSUMPTIONS = [
     "if somebody is still waiting at the end, exactly sum(n_i) waiters returned",
 ]
 OUTSIDE = ["more than 3 waiters, more than 2 notifications", "uvloop, trio"]
-MUST_REACH = ["cond:notified-waiter-cancelled", "cond:queued-waiter-cancelled", "cond:somebody-left-waiting", "cond:all-released", "cond:ex-owner-notify-refused",
+MUST_REACH = ["cond:notified-waiter-cancelled", "cond:queued-waiter-cancelled", "cond:somebody-left-waiting", "cond:all-released", "cond:ex-owner-notify-refused", "cond:stranger-acquire_nowait-failed",
               "cond:stranger-refused", "A:notify-more-than-waiting", "A:notify-zero", "event:waiter-before-set", "event:waiter-after-set", "event:waiter-cancelled"]
 
 
@@ -125,6 +125,11 @@ def cond_scn(sym, cov, W, cancel=None, native=False, second="notify", eager=Fals
                 state["issued"] += n1
                 cond.notify(n1)
                 await anyio.sleep(hold)
+                # still the owner, whatever other tasks attempted meanwhile (e.g. a failed acquire_nowait())
+                try:
+                    cond.notify(0)
+                except RuntimeError:
+                    bad("owner-refused-while-holding-the-lock", "notify after hold")
             # the lock has been released: the former owner must be refused now
             try:
                 cond.notify()
@@ -147,6 +152,12 @@ def cond_scn(sym, cov, W, cancel=None, native=False, second="notify", eager=Fals
 
         async def stranger():
             await anyio.sleep(t1)
+            # a failed acquire_nowait() does not make the caller the owner (a successful one is released at once)
+            try:
+                cond.acquire_nowait()
+                cond.release()
+            except anyio.WouldBlock:
+                cov.hit("cond:stranger-acquire_nowait-failed")
             before = cond.statistics().tasks_waiting
             for name in ("notify", "notify_all"):
                 try:
